@@ -54,7 +54,7 @@ func main() {
 	total := chain.RunStats{Tags: map[string]int{}}
 	for _, name := range []string{"v1only", "mixed", "v2only", "foundation", "foundation2"} {
 		cfg := chain.BaseConfig(chain.Shapes()[name])
-		cfg.Defects = []string{"unbalanced", "zero", "formation", "payout", "wrap"}
+		cfg.Defects = []string{"unbalanced", "zero", "formation", "payout", "wrap", "intx", "confuse"}
 		cfg.MaxReverts = 1
 		st := chain.Run(c, cfg, chain.RunOpts{Num: c.Pick(140, 3500), Depth: 56, Timeout: 20 * time.Minute})
 		total.Behaviours += st.Behaviours
@@ -67,6 +67,23 @@ func main() {
 		}
 		c.Cov("wall_tlc_"+name, st.TLCWall.Seconds())
 		c.Cov("wall_go_"+name, st.GoWall.Seconds())
+	}
+	// outputs nobody has to sign for (zero-signature unlock conditions): the same parent listed twice in one transaction
+	// would be counted twice (exhaustive narrow family, verdicts only)
+	{
+		p := chain.Shapes()["v1only"]
+		p.GenSC, p.GenSF = []chain.AbsOut{{1199, "Z"}}, []chain.AbsOut{{7000, "Z"}, {3000, "Z"}}
+		cfg := chain.BaseConfig(p)
+		cfg.Addrs = []string{"Z"}
+		cfg.Templates, cfg.Defects = []string{"pay", "sf"}, []string{"intx"}
+		cfg.PayAmts, cfg.Fees, cfg.SFSplits = []int{599}, []int{0}, []int{3000}
+		cfg.MaxHeight, cfg.MaxTxns, cfg.MaxReverts, cfg.NoPost = 2, 2, 0, true
+		st := chain.Run(c, cfg, chain.RunOpts{Exhaustive: true, Timeout: 20 * time.Minute})
+		total.Behaviours += st.Behaviours
+		total.Steps += st.Steps
+		for k, v := range st.Tags {
+			total.Tags[k] += v
+		}
 	}
 	// v2 contract life-cycles with the revision defects: a revision that leaves the host's valid output below its
 	// missed value would let an expiry pay out more than the contract locks
